@@ -68,6 +68,9 @@ def check_field_row(core, parser, version, row, level, rec):
     case = {'kind': 'field', 'version': version, 'segment': seg, 'row': row.name, 'level': level}
     text, (cj, ck), val = field_witness(version, row)
     rec.evaluation(('f', version, seg, row.name, level))
+    if not row.ok and 'does not reference' in row.why:
+        rec.violation('table-row-references-another-entry', case, {'why': row.why}, row=rowkey)
+        return
     try:
         s = _mk_segment(core, seg, version, level)
     except Exception as e:
@@ -183,6 +186,9 @@ def check_component_row(core, parser, version, dt, crow, host, rec):
     rowkey = '%s|%s|%s' % (version, dt, crow.name)
     case = {'kind': 'component', 'version': version, 'datatype': dt, 'row': crow.name, 'host': host}
     rec.evaluation(('c', version, dt, crow.name))
+    if not crow.ok and 'does not reference' in crow.why:
+        rec.violation('table-row-references-another-entry', case, {'why': crow.why}, row=rowkey)
+        return
     val = gen.witness(version, crow.datatype if crow.kind == 'leaf' else _first_leaf_dt(version, crow.datatype))
     try:
         f = core.Field(host, version=version) if host else core.Field('ZZZ_1', datatype=dt, version=version)
